@@ -45,6 +45,15 @@ CLAIMED.update({
          "Trusts: the per-operation expectation table in sim/tsim/src/wrap_sim.rs; query-callback ORDER is not demanded (outer-first by documented design); no schedule dimension (history only).", "DESIGN.md 5 C09"),
 })
 
+CLAIMED.update({
+ "C11": ("directive-sim", "deterministic simulation: seeded directive sets x seeded enter/exit/record histories on 1-2 threads, run under four replica collectors in one process (Targets, EnvFilter, EnvFilter re-parsed from its Display, EnvFilter as per-layer filter); differential oracles plus a reference model for the documented directive subset",
+         "Seeded exploration of directive strings from the documented grammar (shared prefixes, duplicates/conflicts in any order, bare level/target, names in any case or digits, span names, int/bool field value matchers) with well-nested enter/exit histories over named spans with typed fields (values recorded at creation or later, spans shared between threads); replicas must deliver identically (Display round trip, global vs per-layer, Targets on static strings), would_enable must equal delivery, and deliveries must equal the model (longest prefix wins, last duplicate wins, level raised exactly while a matching span is entered on the thread and for the span itself). Sampling, not proof.",
+         "Trusts: the directive model in sim/tsim/src/directive_sim.rs for the generated subset; forms outside it are checked only differentially; spans cared about by a directive's callsite but not matching its values are not judged.", "DESIGN.md 5 C11"),
+ "C12": ("reload-sim", "deterministic simulation: seeded histories and seeded schedules (cooperative RwLock shim inside reload, callsite-registry lock hook H1, every interest/MAX_LEVEL atomic a preemption point) of reload/modify vs emissions on 2-3 threads; interval-rule oracle against the filter evaluator",
+         "Seeded exploration of <=6 reloads between None/level/Targets/EnvFilter/closure values of a reloadable global layer (inner or outer) or per-layer filter, interleaved with <=30 emissions from a callsite pool on the reloading and other threads; an emission that starts after reload k returned (and ends before k+1 starts) is judged exactly by value k, an overlapping one by one of the overlapping values; MAX_LEVEL after return is at least the new value's need (exact for level values); a handle whose collector is gone returns a 'dropped' error. Sampling, not proof.",
+         "Trusts: the filter evaluator; lock poisoning cannot occur under the parking_lot seam and is not explored; sequential consistency.", "DESIGN.md 5 C12"),
+})
+
 NOT_BUILT = {
 }
 
